@@ -72,7 +72,8 @@ pub struct Workload {
     pub datas: Vec<Data>,
     pub main_refs: Vec<Ref>,
     /// 0: compile_clvm_text, classic_with_opts = true (Python / JS entry);
-    /// 1: compile_clvm_text, classic_with_opts = false; 2: compile_clvm file to file
+    /// 1: compile_clvm_text, classic_with_opts = false; 2: compile_clvm file to file;
+    /// 3: listing and compile both through cmds::launch_tool (`run -M ...`, `run ...`)
     pub entry: u8,
     /// per-mille rate of transient read faults; runs with a non-zero rate are not judged
     pub transient_pm: u16,
@@ -334,7 +335,7 @@ pub fn generate(rng: &mut Rng, thorough: bool) -> Workload {
         incs,
         datas,
         main_refs,
-        entry: rng.below(3) as u8,
+        entry: rng.below(4) as u8,
         transient_pm: if rng.chance(1, 10) { 150 } else { 0 },
     }
 }
@@ -360,12 +361,43 @@ fn actor_body(w: Workload) -> Box<dyn FnOnce(&Actor) + Send + 'static> {
             }
         };
         actor.boundary("list", "");
-        let listing = {
-            let opts: Rc<dyn CompilerOpts> = Rc::new(DefaultCompilerOpts::new(MAIN));
-            let opts = opts.set_search_paths(&search);
-            gather_dependencies(opts, MAIN, &text)
+        // entry 3: both steps through the command line front end (`run -M -i .. file`,
+        // then `run -i .. file`), i.e. cmds::launch_tool with its own option handling
+        let cli = |dash_m: bool| -> String {
+            use chialisp::classic::clvm::__type_compatibility__::Stream;
+            let mut args: Vec<String> = vec!["run".to_string()];
+            if dash_m {
+                args.push("-M".to_string());
+            }
+            for d in search.iter() {
+                args.push("-i".to_string());
+                args.push(d.clone());
+            }
+            args.push(MAIN.to_string());
+            let mut out = Stream::new(None);
+            chialisp::classic::clvm_tools::cmds::launch_tool(&mut out, &args, "run", 2);
+            String::from_utf8_lossy(out.get_value().data()).into_owned()
         };
-        let info = {
+        let info = if w.entry == 3 {
+            let text = cli(true);
+            let _g = seam::HarnessGuard::new();
+            let lines: Vec<String> = text
+                .lines()
+                .map(|l| l.trim().to_string())
+                .filter(|l| !l.is_empty())
+                .collect();
+            // an error is printed as "<location>: <message>"
+            if lines.iter().any(|l| l.contains(": ") || l.starts_with("FAIL")) {
+                format!("err:{}", lines.join(" | "))
+            } else {
+                format!("ok:{}", serde_json::to_string(&lines).unwrap())
+            }
+        } else {
+            let listing = {
+                let opts: Rc<dyn CompilerOpts> = Rc::new(DefaultCompilerOpts::new(MAIN));
+                let opts = opts.set_search_paths(&search);
+                gather_dependencies(opts, MAIN, &text)
+            };
             let _g = seam::HarnessGuard::new();
             match &listing {
                 Ok(l) => {
@@ -377,6 +409,10 @@ fn actor_body(w: Workload) -> Box<dyn FnOnce(&Actor) + Send + 'static> {
         };
         actor.boundary("listed", &info);
         let ok = match w.entry {
+            3 => {
+                let out = cli(false);
+                out.trim_start().starts_with('(')
+            }
             2 => {
                 let mut syms = HashMap::new();
                 clvmc::compile_clvm(MAIN, "r/out.hex", &search, &mut syms).is_ok()
@@ -618,6 +654,11 @@ impl Policy for C18Policy {
             }
         }
         self.probes.hit("oracle_evaluated");
+        self.probes.hit(&format!(
+            "oracle_evaluated_entry_{}",
+            ["compile_clvm_text_with_opts", "compile_clvm_text_plain", "compile_clvm_file", "cli_run_M"]
+                [self.w.entry as usize % 4]
+        ));
         Ok(())
     }
 }
